@@ -181,6 +181,9 @@ def install(reg):
     reg.add(FuncContract("parser.HTTPRequestParser.received", params={"data": Bytes}, returns=Int,
         raises=[],
         ensures=[
+            # C19: the channel answers an expectation only for a request whose head it sees marked complete; a request that waits for its body
+            # (whatever the framing of that body) must carry the mark, or the client that waits is left waiting
+            ("C19-a-request-waiting-for-its-body-has-its-head-marked-complete", "implies(not self.completed and self.body_rcv is not None, self.headers_finished)"),
             ("completed-returns-0", "implies(old(self.completed), result == 0)"),
             ("result-range", "0 <= result <= len(data)"),
             ("head-progress", "implies(not old(self.completed) and old(self.body_rcv) is None and len(data) >= 1, result >= 1)"),
@@ -199,6 +202,10 @@ def install(reg):
                               " and not self.chunked and self.content_length > 0, self.content_length < self.adj.max_request_body_size)"),
             ("body-limit-chunked", "implies(old(self.body_rcv) is not None and not old(self.completed) and"
                                    " self.body_bytes_received >= self.adj.max_request_body_size, self.completed and isinst(self.error, 'RequestEntityTooLarge'))"),
+            # a framing error found by the body receiver (bad chunk size, missing chunk terminator, invalid trailer) refuses the MESSAGE: it is
+            # never reported as a complete, error-free request, whatever else the receiver says about it (an invalid trailer also ends the body)
+            ("C06-a-body-framing-error-refuses-the-message", "implies(old(self.body_rcv) is not None and not old(self.completed) and self.chunked and self.body_rcv.error is not None,"
+                                                             " self.completed and self.error is not None)"),
             ("body-count", "implies(old(self.body_rcv) is not None and not old(self.completed), self.body_bytes_received == old(self.body_bytes_received) + result)"),
             ("C07-chunked-content-length-is-the-decoded-length", "implies(old(self.body_rcv) is not None and not old(self.completed) and self.completed and self.error is None and self.chunked,"
                                                                  " 'CONTENT_LENGTH' in self.headers)"),
